@@ -44,6 +44,18 @@ chk("C10","exploration",
     "Whole-server runs with several users and sessions on me, p2p and group topics under random attach/detach/disconnect/mute/unmute/ban/unban/publish/note steps: (leak) every {pres} (other than acs/gone/term) and {info} frame received by anybody is attributed to its topic and the receiver's store row must grant P (and R for info; receipts relayed inside an attached topic need R only) before or after the step; (convergence) at settled points - logical quiescence and all idle topics unloaded - the online flag in a fresh {meta sub} on me and the last {pres on|off} received about every p2p partner with P on both sides and about the group equal the truth; (accounting) cached per-user online counters of loaded topics and the online flags of the group's {meta sub} equal the number of attached sessions.",
     "vfmem mirrors the adapter contract; 'eventually' is restated as 'at settled points'; sequential requests (one outstanding at a time); Session.background is not settable for local sessions in this code base so background sessions behave as foreground.",
     "trace monitor over presence frames with row ground truth + settled-point convergence and counter invariants","sim","DESIGN.md 3/C10")
+chk("C11","exploration",
+    "Fresh websocket connections driven by random scripts of the ten message kinds (valid / too old / garbage versions, a dozen login variants incl. expired, tampered and no-login tokens, suspended, deleted and not-yet-validated accounts, extra.obo from non-root and root) are compared reply by reply with a three-variable reference automaton; a final {sub me} probe must succeed iff the automaton says authenticated; an observer checks author and sender header of every accepted publish. Runs with and without a required credential validator.",
+    "vfmem mirrors the adapter contract; accounts are provisioned through the store and the real authenticators; reply codes are asserted only where the property fixes them (401, 409, 403), otherwise only the class (refused / accepted).",
+    "reference-automaton monitor over client-boundary request/reply histories","sim","DESIGN.md 3/C11")
+chk("C12","exploration",
+    "The real token, code and basic authenticators and checkAPIKey are run in-process over the in-memory store: exhaustive single-bit flips and truncations of every issued token and API key, tokens forged by an independent implementation of the documented layout (right key must be accepted, foreign key / wrong serial / expired / level beyond root refused), random strings as API keys, reset-code attempt sequences against a small model, password and login-case scenarios.",
+    "expiry uses fixed instants in 2020 / 2090; bcrypt cost limits the number of basic-auth accounts per run.",
+    "exhaustive mutation of issued secrets + independent forger + attempt-sequence model","sim","DESIGN.md 3/C12")
+chk("C13","exploration",
+    "Child process per batch, booted with each of the 16 combinations of optional subsystems; raw bytes, broken JSON and structure-aware hostile messages of all ten kinds from clients in every session state; every command is on disk before it is sent, so a dead child yields the killing input; liveness of the process and of a bystander session, a reply for every request with an id (an id-less error for requests that cannot be decoded or are refused before dispatch), error codes for ill-formed topic names. Drafty-shaped hostile content is rendered through drafty.PlainText/Preview in-package.",
+    "websocket transport only (long-poll and gRPC entry points share dispatch but their read loops are not fuzzed); FCM/TNPG payload builders are covered only through the drafty renderer they call.",
+    "crash/liveness monitor over child processes + request/reply correlation","sim","DESIGN.md 3/C13")
 chk("C05","exploration",
     "Runtime oracle over the real AccessMode code: every one of the 256x256 permission pairs is pushed through Delta/ApplyDelta/ApplyMutation and every set through text/JSON/SQL round trips (finite core enumerated completely); all short strings over the mode alphabet plus junk are compared with an independent reference for the stated laws (unknown letters rejected and target unchanged, empty = no change, N = none). The on-the-wire intersection law and the notification-replay clause are monitored in the C07 engine runs and reported there.",
     "Reference parser in harness/types/c05.go is trusted; strings longer than 5 are sampled, not enumerated; proxy replay through updateAcsFromPresMsg is exercised by the sim engine (C07), not here.",
